@@ -1139,6 +1139,8 @@ func Mutate(c *kit.Chooser, data []byte) ([]byte, string) {
 			switch how {
 			case "size-attack-chain":
 				return out, how
+			case "list-bloated":
+				return out, "size-attack-" + how
 			case "string-emptied", "string-cut-by-one", "string-halved", "string-extended", "string-as-list",
 				"list-element-dropped", "list-element-repeated", "list-as-string", "empty-string-as-empty-list":
 				return out, "wrong-shape-" + how // canonical encoding of a value of the wrong shape
